@@ -32,6 +32,27 @@ def gen_cases(ctx):
     return cases
 
 
+def authz_sequence_pass(ctx):
+    """real TLS servers with an authorization handler, created through the C ABI (rodbus_server_create_tls_with_authz:
+    AuthorizationHandlerWrapper) and through the Rust API, several client sessions with different role certificates on
+    ONE server. Judged straight from the property: every request of a session whose certificate carries a role is submitted
+    once, to the callback of its own kind, with its unit id, range / index and THAT session's role; deny => exception 01,
+    allow => served; a certificate without a usable role gets no session (authorization is never switched off)."""
+    seqs = srv.gen_authz_sequences(ctx.rng, ctx.quick())
+    out, res = srv.run_authz_sequences(ctx, seqs)
+    bad = [(sq, o, p) for sq, o, per in zip(seqs, out, res) for p in per if not p['ok_full']]
+    for server in ('ffi', 'rust'):
+        b = [x for x in bad if x[0][0] == server]
+        ctx.oblige(f'tls-authorization-sequences:{server}-server', not b, f'{len(b)} sessions; first: {b[0][2] if b else ""}'[:300])
+    for sq, o, p in bad[:2]:
+        what = 'role-less-certificate-served' if not p['want'].get('served', True) else ('denied-request-served' if not p['want'].get('allowed', True) and p['got'].startswith('client=OK') else 'query-differs')
+        ctx.violation(f'authorization.tls.{sq[0]}-server.{what}',
+                      f'TLS + authorization, {sq[0]} server, policy {sq[1]}: session #{p["session"]} (role certificate {p["role"]}, {p["op"]}) got `{p["got"]}`, the property requires {p["want"]}',
+                      {'authz_sequences': [list(sq[:3]) + [[list(x) for x in sq[3]]]], 'harness_line': 'ffi_authz: ' + srv.authz_line(sq), 'impl': o, 'required': p['want']})
+    return {'tls-authorization-sequences': len(seqs), 'tls-authorization-sessions': sum(len(s[3]) for s in seqs),
+            'tls-authorization-sessions:role-less-certificate': sum(1 for s in seqs for x in s[3] if x[0] in ('roleless', 'tworoles'))}
+
+
 def tls_pass(ctx):
     """thorough tier: real TLS sessions - the rodbus TLS client holding the repository's client certificate
     (role "operator") against spawn_tls_server_task_with_authz; the role the policy is consulted with must be
@@ -91,7 +112,10 @@ def tls_pass(ctx):
 
 
 def run(ctx):
-    if not srv.prepare(ctx):
+    if not srv.prepare(ctx, ['FfiTables.v', 'TlsAuthz.v']):
+        return
+    if ctx.replay and 'authz_sequences' in ctx.replay:
+        srv.replay_authz_sequences(ctx, False)
         return
     if ctx.replay and 'tls_role_cases' in ctx.replay:
         from checks import c08_tls
@@ -133,6 +157,8 @@ def run(ctx):
                 b = bytes.fromhex(x)
                 if (c[0] == 'tcp' and b[7] & 0x80 and b[8] == 1) or (c[0] == 'rtu' and b[1] & 0x80 and b[2] == 1):
                     st['denied-replies(exception 01)'] += 1
+    if not ctx.replay:
+        st.update(authz_sequence_pass(ctx))
     if not ctx.quick() and not ctx.replay:
         st.update(tls_pass(ctx))
     if not ctx.replay:
